@@ -148,8 +148,10 @@ func errKind(err error) int {
 		return 8
 	case strings.Contains(s, "no target match"):
 		return 9
-	case strings.Contains(s, "invalid command"):
+	case strings.Contains(s, "invalid host."):
 		return 11
+	case strings.Contains(s, "invalid command"):
+		return 12
 	}
 	return 10
 }
@@ -223,6 +225,7 @@ type env struct {
 	badhosts map[string]bool
 	// domain flags
 	nan, nonASCII, longLine, hostClass, weightCmdExtreme, edgeWeight bool
+	stripBreaks                                                      []string // hosts that compile but whose normalised form does not (assumption of the lookup theorem)
 }
 
 func newEnv() *env {
@@ -268,12 +271,19 @@ func (e *env) addSrc(src string) {
 		e.badglobs[p] = true
 	}
 	h = strings.ToLower(h)
-	ok := true
+	_, herr := glob.Compile(h) // what addRoute checks for a new host (since c9fb527)
+	if herr != nil {
+		e.badglobs[h] = true
+	}
+	ok := herr == nil
 	for _, tls := range []bool{false, true} {
 		n := normHost(h, tls)
 		if _, err := glob.Compile(n); err != nil {
 			e.badhosts[n] = true
 			ok = false
+			if herr == nil {
+				e.stripBreaks = append(e.stripBreaks, h)
+			}
 		}
 	}
 	if ok && (strings.ContainsAny(h, "[]{}\\") || strings.HasPrefix(h, ":")) {
@@ -363,14 +373,12 @@ func (e *env) excluded() string {
 	return ""
 }
 
-// a crash on an input the model does not cover is judged directly; the two known defects are
+// a crash on an input the model does not cover is judged directly; the known weight defect is
 // recognised by what the input contains, anything else is reported generically
 func outsideWhat(fn, why string, e *env, buildPanic bool) string {
 	switch {
 	case e.edgeWeight:
 		return fn + " / Lookup panicked on an input outside the modelled domain that carries an Inf / subnormal-range / huge weight (same defect as F-C02-1..3; " + why + ")"
-	case !buildPanic && len(e.badhosts) > 0:
-		return "Lookup panicked on a table with an invalid host glob, built from an input outside the modelled domain (same defect as F-C02-4; " + why + ")"
 	}
 	return fn + " / Lookup panicked on an input outside the modelled domain (" + why + ")"
 }
@@ -735,6 +743,9 @@ func textCase(run *vh.Run, class, text string, nLook int) {
 		show = show[:600] + fmt.Sprintf("... (%d bytes)", len(text))
 	}
 	human["text"] = show
+	if len(e.stripBreaks) > 0 {
+		run.Violation(run.NextID(), "assumption broken: a host pattern compiles as a glob but not after its :80 / :443 suffix is removed", e.stripBreaks)
+	}
 	if why := e.excluded(); why != "" {
 		run.Exclude(why)
 		// outside the model, but the property still speaks: no text may crash the code
@@ -964,7 +975,8 @@ type wLine struct {
 
 var (
 	badTexts = []string{"rout add x", "route add svc-a", "route add svc-a /foo", "route weight nosuch /foo weight 0.5", "route add svc-a a.test/ http://a b/",
-		"route add svc-a a.test/[ http://10.0.0.1:80/", "route del", "route add svc-a a.test/ http://10.0.0.1:80/ weight abc", "garbage"}
+		"route add svc-a a.test/[ http://10.0.0.1:80/", "route del", "route add svc-a a.test/ http://10.0.0.1:80/ weight abc", "garbage",
+		"route add svc-a [/ http://10.0.0.1:80/", "route add svc-a a[.test/foo http://10.0.0.1:80/", "route add svc-b b.test/ http://10.0.0.2:80/\nroute add svc-a {a.test/ http://10.0.0.1:80/"}
 	crashTexts = []string{"route add s1 c02.test/ http://h0.c02.test:8000/ weight Inf", "route add s1 c02.test/ http://h0.c02.test:8000/ weight 5e-324"}
 )
 
@@ -1185,6 +1197,10 @@ func loopCases(run *vh.Run) {
 				class = "custom-valid"
 			}
 			body := fullJSON(defs)
+			if r.Intn(2) == 0 {
+				body = sparseJSON(defs) // keys with zero values omitted: must be defaulted, never inherited
+				class += "-sparse"
+			}
 			if d == 1 {
 				body = pick(r, []string{`[{"cmd":"route add","service":"s","src":"","dst":"http://h/"}]`, `[{"cmd":"route add","service":"s","dst":"http://h/"}]`})
 			}
@@ -1220,7 +1236,7 @@ func loopCases(run *vh.Run) {
 			}
 		}
 		if !reported || len(ls[1].Table) != 0 {
-			run.Violation(run.NextID(), "custom backend: a definition without \"src\" was installed with the src of the previous poll's definition (decoder state reused across polls)",
+			run.Violation(run.NextID(), "custom backend: a definition without \"src\" was not rejected with 'prefix must not be empty' after a poll that had one (fields inherited from the previous poll)",
 				map[string]interface{}{"poll1": jobs[staleJob].Docs[0], "poll2": jobs[staleJob].Docs[1], "reported": ls[1].Msgs, "table_after_poll2": ls[1].Table})
 		}
 	} else {
@@ -1360,8 +1376,41 @@ func loopCases(run *vh.Run) {
 	}
 }
 
-// every key explicit (null for no tags / no opts): the backend decodes into the definitions of
-// the previous poll, so an omitted key would inherit the previous value (finding F-C02-5)
+// only the keys with a non-zero value: everything else must get its zero value, whatever the
+// previous poll contained (F-C02-5, fixed by 9bd16b3: the backend used to decode into the previous
+// poll's definitions)
+func sparseJSON(defs []route.RouteDef) string {
+	l := make([]map[string]interface{}, len(defs))
+	for i, d := range defs {
+		m := map[string]interface{}{}
+		if d.Cmd != "" {
+			m["cmd"] = string(d.Cmd)
+		}
+		if d.Service != "" {
+			m["service"] = d.Service
+		}
+		if d.Src != "" {
+			m["src"] = d.Src
+		}
+		if d.Dst != "" {
+			m["dst"] = d.Dst
+		}
+		if d.Weight != 0 {
+			m["weight"] = d.Weight
+		}
+		if len(d.Tags) > 0 {
+			m["tags"] = d.Tags
+		}
+		if len(d.Opts) > 0 {
+			m["opts"] = d.Opts
+		}
+		l[i] = m
+	}
+	b, _ := json.Marshal(l)
+	return string(b)
+}
+
+// every key explicit (null for no tags / no opts)
 func fullJSON(defs []route.RouteDef) string {
 	type full struct {
 		Cmd     string            `json:"cmd"`
@@ -1432,6 +1481,10 @@ func schedCases(run *vh.Run) {
 				impl = append(impl, o)
 				human = append(human, fmt.Sprintf("lookup r%d %s%s", rd, q.host, q.uri))
 			}
+		}
+		if why := e.excluded(); why != "" {
+			run.Exclude(why)
+			continue
 		}
 		run.Add("forced-schedule", vh.App("CSched", e.coq(), strList(texts), vh.List(acts), vh.List(impl)),
 			map[string]interface{}{"texts": texts, "schedule": human})
